@@ -354,6 +354,34 @@ Section Jsons.
     List.length (filter (fun p => String.eqb (fst p) k) l).
 End Jsons.
 
+(* ================================================================ one store object used several times *)
+(* One paths object (DirectoryPaths: files samples.csv / samples_info.json / samples_summary.json; DatabasePaths: the
+   samples row and the named json rows of one Fit) over ANY history of saves and loads through that same object.  The
+   state of the store is the named values last written; a load reads the store and leaves it as it is (in particular
+   the object keeps nothing from an earlier load).  [run_store] gives what every load of the history returns. *)
+Section Store.
+  Context {A : Type}.
+  Inductive sop : Type := SSave (k : string) (v : A) | SLoad (k : string).
+  Fixpoint run_store (l : list (string * A)) (h : list sop) : list (string * option A) :=
+    match h with
+    | [] => []
+    | SSave k v :: h' => run_store (set_json k v l) h'
+    | SLoad k :: h' => (k, get_json k l) :: run_store l h'
+    end.
+  (* the statement: every load returns the value of the last save under its name that precedes it in the history
+     (which is also what a fresh reader of the same store gets) *)
+  Fixpoint spec_store (past : list (string * A)) (h : list sop) : list (string * option A) :=
+    match h with
+    | [] => []
+    | SSave k v :: h' => spec_store (past ++ [(k, v)]) h'
+    | SLoad k :: h' => (k, assoc string_dec k (rev past)) :: spec_store past h'
+    end.
+  Definition is_save (o : sop) : bool := match o with SSave _ _ => true | SLoad _ => false end.
+  Definition saves_of (h : list sop) : list (string * A) :=
+    flat_map (fun o => match o with SSave k v => [(k, v)] | SLoad _ => [] end) h.
+End Store.
+Arguments sop A : clear implicits.
+
 (* ================================================================ correspondence cases (binary64) *)
 From Coq Require Import Floats.PrimFloat.
 From PAFCommon Require Import PyFloat.
@@ -427,6 +455,9 @@ Inductive case :=
        (loaded : res (list fsample)) (pl : res (list (list float))) (best : res (list float))
 (* Fit.set_json history (name, token) and, per queried name, what get_json returned and how many rows carry the name *)
 | CJsonHist (h : list (string * nat)) (obs : list (string * option nat * nat))
+(* one paths object over a history of saves (named tables of binary64 cells: the samples table, the best-fit vector of
+   the summary, the samples_info numbers) and loads; obs = what every load of the history returned, in order *)
+| CStore (h : list (sop (list (list float)))) (obs : list (string * option (list (list float))))
 (* database rows through EfficientSamples; mini = save_all_samples is False; midx = indices kept by minimise (sorted) *)
 | CDb (t : node) (rows : list (srow float)) (mini : bool) (midx : list nat)
       (loaded : res (list fsample)) (pl : res (list (list float))) (best : res (list float)).
@@ -454,6 +485,13 @@ Definition check_case (c : case) : bool :=
       forallb (fun o => match o with (k, got, n) =>
                  match get_json k l, got with Some a, Some b => Nat.eqb a b | None, None => true | _, _ => false end
                  && Nat.eqb (json_count k l) n end) obs
+  | CStore h obs =>
+      list_eqb (fun a b => String.eqb (fst a) (fst b)
+                           && match snd a, snd b with
+                              | Some x, Some y => list_eqb flist_eqb x y
+                              | None, None => true
+                              | _, _ => false
+                              end) (run_store [] h) obs
   | CJsonLoad t ll lp w kw loaded vec =>
       let s := json_load fid fzero fx dict_drops_zero (ll, lp, w, kw) in
       sample_eqb s loaded && res_eqb flist_eqb (param_list (tuple_paths [] t) (sorted_walk t) s) vec
